@@ -28,6 +28,8 @@ EXTENDS Integers, Sequences, FiniteSets, TLC
 CONSTANTS MaxN,              \* most results a handler produces
           WrapperConsumes,   \* does the test inside _wrap_handler take the indication off the queue?
           ReleaseWakesWaiter,\* does an arriving A-RELEASE-RQ end a pending wait for a DIMSE response (as A-ABORT does)?
+          SentinelOnlyIfEmpty,\* FALSE (the code): the arriving A-RELEASE-RQ always leaves its wake-up for a pending DIMSE wait; TRUE: only
+                             \* when no message is queued at that moment - responses queued ahead are consumed, then the wait hangs (refuted)
           PauseCoversEncode  \* FALSE (the code): a local send pauses the reactor only around the sending and the wait for the
                              \* response, and every exit un-pauses it; TRUE: the pause is taken before the data set is encoded,
                              \* and an encoding failure leaves through an exception that skips the un-pause (refuted)
@@ -42,8 +44,10 @@ VARIABLES svc, n,            \* the request served and how many results its hand
           tmo,               \* a DIMSE timeout is configured (dimse_timeout is not None)
           enc,               \* C-GET: the data set of the last sub-operation cannot be encoded for the accepted context - that
                              \* sub-operation fails before anything is sent, the operation goes on to its final response
-          paused             \* the reactor is parked by a local send (Association._reactor_checkpoint cleared)
-vars == <<svc, n, pc, k, rel, at, est, tmo, enc, paused>>
+          paused,            \* the reactor is parked by a local send (Association._reactor_checkpoint cleared)
+          q,                 \* "ascu": responses to this side's own request that are queued but not yet taken by the (slow) caller
+          woke               \* the wake-up of the arriving release request is in the queue
+vars == <<svc, n, pc, k, rel, at, est, tmo, enc, paused, q, woke>>
 
 Init == /\ svc \in Services
         /\ n \in 0..MaxN
@@ -51,12 +55,14 @@ Init == /\ svc \in Services
         /\ (svc \in {"get", "move"} => n >= 1)
         /\ pc = "idle" /\ k = 0 /\ rel = "none" /\ at = <<"never", 0>> /\ est = TRUE /\ tmo \in BOOLEAN
         /\ enc \in BOOLEAN /\ (svc # "get" => enc = FALSE) /\ paused = FALSE
+        /\ q \in 0..1 /\ (svc # "ascu" => q = 0) /\ woke = FALSE
 
 \* ---- environment: the peer's A-RELEASE-RQ arrives (once) at any moment before the end ----
 PeerRelease == /\ rel = "none" /\ pc \notin {"done"}
                /\ (pc = "idle" => svc = "none")      \* (a peer that releases and then sends a request is not considered)
                /\ rel' = "queued" /\ at' = <<pc, k>>
-               /\ UNCHANGED <<tmo, svc, n, pc, k, est, enc, paused>>
+               /\ woke' = ~(SentinelOnlyIfEmpty /\ q > 0)
+               /\ UNCHANGED <<tmo, svc, n, pc, k, est, enc, paused, q>>
 
 \* ---- the request arrives and is dispatched (reactor: get_msg -> _serve_request) ----
 Dispatch == /\ pc = "idle"
@@ -66,16 +72,16 @@ Dispatch == /\ pc = "idle"
                        [] svc = "find" -> "check"
                        [] OTHER        -> "prelude"          \* C-GET / C-MOVE handlers first yield the (destination and) number of sub-operations
             /\ k' = IF svc = "find" THEN 1 ELSE 0
-            /\ UNCHANGED <<tmo, svc, n, rel, at, est, enc, paused>>
+            /\ UNCHANGED <<tmo, svc, n, rel, at, est, enc, paused, q, woke>>
 
 \* the C-GET / C-MOVE handler yields its preliminary values (k = 0: before the first one; C-MOVE k = 1: between destination and
 \* count); the SCP reads them outside the _wrap_handler loop (C-MOVE then opens the association to the destination)
 Prelude == /\ pc = "prelude"
            /\ IF svc = "move" /\ k = 0 THEN pc' = "prelude" /\ k' = 1 ELSE pc' = "check" /\ k' = 1
-           /\ UNCHANGED <<tmo, svc, n, rel, at, est, enc, paused>>
+           /\ UNCHANGED <<tmo, svc, n, rel, at, est, enc, paused, q, woke>>
 
 \* a plain (non-generator) handler runs and its response is sent (P-DATA is legal in Sta8)
-Handler == /\ pc = "handler" /\ pc' = "between" /\ UNCHANGED <<tmo, svc, n, k, rel, at, est, enc, paused>>
+Handler == /\ pc = "handler" /\ pc' = "between" /\ UNCHANGED <<tmo, svc, n, k, rel, at, est, enc, paused, q, woke>>
 
 \* _wrap_handler: the handler produces result k (or ends); the "still associated?" test before the yield
 Check == /\ pc = "check"
@@ -87,7 +93,7 @@ Check == /\ pc = "check"
                  ELSE /\ pc' = IF svc = "find" THEN "check" ELSE "sub"   \* pending response, or a sub-operation first
                       /\ UNCHANGED rel
          /\ k' = IF pc' = "check" THEN k + 1 ELSE k
-         /\ UNCHANGED <<tmo, svc, n, at, est, enc, paused>>
+         /\ UNCHANGED <<tmo, svc, n, at, est, enc, paused, q, woke>>
 
 \* a C-STORE sub-operation: send_c_store() on this or another association; if the release request arrives
 \* meanwhile (this association, C-GET) the wait ends without a response and _handle_no_response leaves it to the reactor
@@ -97,23 +103,26 @@ WaitEnds == rel # "queued" \/ tmo \/ ReleaseWakesWaiter
 EncodeFails == svc = "get" /\ enc /\ k = n
 Sub == /\ pc = "sub" /\ ((svc = "get" /\ ~EncodeFails) => WaitEnds) /\ pc' = "check" /\ k' = k + 1
        /\ paused' = (EncodeFails /\ PauseCoversEncode)
-       /\ UNCHANGED <<tmo, svc, n, rel, at, est, enc>>
+       /\ UNCHANGED <<tmo, svc, n, rel, at, est, enc, q, woke>>
 
-Final == /\ pc = "final" /\ pc' = "between" /\ UNCHANGED <<tmo, svc, n, k, rel, at, est, enc, paused>>
+Final == /\ pc = "final" /\ pc' = "between" /\ UNCHANGED <<tmo, svc, n, k, rel, at, est, enc, paused, q, woke>>
 
 \* back in the reactor loop between two messages
-Between == /\ pc = "between" /\ pc' = "reactor" /\ UNCHANGED <<tmo, svc, n, k, rel, at, est, enc, paused>>
+Between == /\ pc = "between" /\ pc' = "reactor" /\ UNCHANGED <<tmo, svc, n, k, rel, at, est, enc, paused, q, woke>>
 
 \* a user thread of this side waits for the response to its own request with the reactor paused; the wait ends
 \* (response, or no message because the release request arrived) and the reactor resumes
-AscuWait == /\ pc = "ascu_wait" /\ WaitEnds /\ pc' = "reactor" /\ UNCHANGED <<tmo, svc, n, k, rel, at, est, enc, paused>>
+AscuWait == /\ pc = "ascu_wait"
+            /\ IF q > 0 THEN q' = q - 1 /\ UNCHANGED pc                      \* the caller takes a queued response and waits for the next
+               ELSE (rel # "queued" \/ tmo \/ (ReleaseWakesWaiter /\ woke)) /\ pc' = "reactor" /\ UNCHANGED q
+            /\ UNCHANGED <<tmo, svc, n, k, rel, at, est, enc, paused, woke>>
 
 \* the reactor's own test: takes the indication and answers it
 Reactor == /\ pc = "reactor"
            /\ IF est /\ rel = "queued" /\ ~paused
               THEN rel' = "answered" /\ est' = FALSE /\ pc' = "done"
               ELSE UNCHANGED <<rel, est, pc>>
-           /\ UNCHANGED <<svc, n, k, at, tmo, enc, paused>>
+           /\ UNCHANGED <<svc, n, k, at, tmo, enc, paused, q, woke>>
 
 Next == PeerRelease \/ Dispatch \/ Handler \/ Prelude \/ Check \/ Sub \/ Final \/ Between \/ AscuWait \/ Reactor
 Spec == Init /\ [][Next]_vars
@@ -121,7 +130,7 @@ FairSpec == Spec /\ WF_vars(Dispatch \/ Handler \/ Prelude \/ Check \/ Sub \/ Fi
 
 TypeOK == /\ svc \in Services /\ n \in 0..MaxN /\ k \in 0..(MaxN + 1)
           /\ pc \in {"idle", "handler", "prelude", "check", "sub", "final", "between", "ascu_wait", "reactor", "done"}
-          /\ rel \in {"none", "queued", "consumed", "answered"} /\ est \in BOOLEAN /\ tmo \in BOOLEAN /\ enc \in BOOLEAN /\ paused \in BOOLEAN
+          /\ rel \in {"none", "queued", "consumed", "answered"} /\ est \in BOOLEAN /\ tmo \in BOOLEAN /\ enc \in BOOLEAN /\ paused \in BOOLEAN /\ q \in 0..1 /\ woke \in BOOLEAN
 
 \* C07 (safety): nobody but the reactor takes the release indication
 C07_NeverSwallowed == rel # "consumed"
@@ -130,5 +139,5 @@ C07_Answered == (rel = "queued") ~> (rel = "answered" /\ ~est)
 
 \* ---- scenario export: every (service, N, arrival point) TLC can reach ----
 Export == (rel = "queued" /\ at # <<"never", 0>>) =>
-             PrintT(<<"CASE", [svc |-> svc, n |-> n, pos |-> at[1], k |-> at[2], tmo |-> tmo, enc |-> enc]>>)
+             PrintT(<<"CASE", [svc |-> svc, n |-> n, pos |-> at[1], k |-> at[2], tmo |-> tmo, enc |-> enc, q |-> q]>>)
 =============================================================================
